@@ -3,7 +3,6 @@ package main
 import (
 	"go/types"
 	"strings"
-	"time"
 
 	"golang.org/x/tools/go/ssa"
 )
@@ -13,9 +12,6 @@ func (fc *FnCtx) builtinModel(name string, res ssa.Value, c *ssa.CallCommon, in 
 	return false
 }
 
-func (e *Engine) cmdCheck(prop, tier, evid, known, replayDir string, replay bool, t0 time.Time) int {
-	return 3
-}
 
 // contractFor returns the contract that applies to fn: its own `func`/`extern` contract, the contract of
 // its generic origin, and/or the `iface` contract of an interface method it implements (behavioural
@@ -68,7 +64,19 @@ func (e *Engine) contractFor(fn *ssa.Function) *Contract {
 	case own != nil && ic != nil:
 		m := *own
 		m.Requires = append(append([]Clause{}, ic.Requires...), own.Requires...)
-		m.Ensures = append(append([]Clause{}, ic.Ensures...), own.Ensures...)
+		m.Ensures = nil
+		for _, cl := range ic.Ensures {
+			skip := false
+			for _, l := range strings.Fields(strings.ReplaceAll(own.Opts["skip-post"], ",", " ")) {
+				if l == cl.Label {
+					skip = true
+				}
+			}
+			if !skip {
+				m.Ensures = append(m.Ensures, cl)
+			}
+		}
+		m.Ensures = append(m.Ensures, own.Ensures...)
 		m.Tags = append(append([]string{}, ic.Tags...), own.Tags...)
 		if !m.HasMod && ic.HasMod {
 			m.HasMod, m.Modifies = true, ic.Modifies
